@@ -11,7 +11,7 @@ fn ilist(rng: &mut Rng, n: usize) -> String {
 
 /// One block of forms; `u` is a unique suffix for global names.
 pub fn block(rng: &mut Rng, u: usize, tags: &mut Vec<String>) -> Vec<String> {
-    let t = rng.below(25);
+    let t = rng.below(26);
     tags.push(format!("cont-t{}", t));
     let a = rng.range(1, 9);
     let b = rng.range(2, 5);
@@ -417,6 +417,38 @@ pub fn block(rng: &mut Rng, u: usize, tags: &mut Vec<String>) -> Vec<String> {
                 f.push(format!("(length (junk{u} 40))", u = u));
             }
             f
+        }
+        24 => {
+            // the invocation (k v) is written in the body of the very procedure that captured k: it runs in a second
+            // activation of that procedure (same code, same frame base, same stack depth) or later in the same
+            // activation, while OTHER operands are pending -- the ones pending at capture time must come back
+            if rng.below(2) == 0 {
+                let mut f = vec![
+                    format!("(define k{u} #f)", u = u),
+                    format!(
+                        "(define (f{u} x first) (+ x (if first (call/cc (lambda (c) (set! k{u} c) {a})) (k{u} {b}))))",
+                        u = u, a = a, b = b * 10
+                    ),
+                    format!("(f{u} 1 #t)", u = u),
+                    format!("(f{u} 100 #f)", u = u),
+                ];
+                if r > 0 {
+                    f.push(format!("(list (f{u} 1000 #f))", u = u));
+                    f.push(format!("(f{u} 7 #t)", u = u));
+                    f.push(format!("(f{u} 500 #f)", u = u));
+                }
+                f
+            } else {
+                vec![
+                    format!("(define r{u} '())", u = u),
+                    format!(
+                        "(define (g{u}) (define k #f) (define n 0) (set! r{u} (cons (+ {a} (call/cc (lambda (c) (set! k c) 1))) r{u})) (set! n (+ n 1)) (if (< n {lim}) (+ 100 (k n)) r{u}))",
+                        u = u, a = a, lim = 2 + r
+                    ),
+                    format!("(g{u})", u = u),
+                    format!("r{u}", u = u),
+                ]
+            }
         }
         _ => {
             // invoked from inside a for-each callback of a later form: abandons that loop
